@@ -388,7 +388,15 @@ def run_part2(case, ob, site):
             import io
             import contextlib
             with contextlib.redirect_stdout(io.StringIO()):     # find_and_print_loop prints the loop it finds
-                paths += explore(body, assumptions=[], max_paths=3000)
+                try:
+                    paths += explore(body, assumptions=[], max_paths=3000)
+                except sym.HarnessError as e:
+                    if 'path budget' not in str(e):
+                        raise
+                    # too many distinguishable tie-break orders for this design: outside the part-2 bound, stated as such
+                    ob.notes.append('design skipped: more than 3000 distinguishable tie-break orders (outside the part-2 bound)')
+                    ob.fact('skipped-order-budget', True)
+                    return
     finally:
         Block.wirevector_subset = orig_subset
     ob.paths += len(paths)
